@@ -387,6 +387,14 @@ func fedqRun(in *Sx) *Sx {
 		b.VerifNodeFail(fedA)
 		conn.Close()
 	}()
+	// a second peer of node A that is never served: its queue sits at another position than B's, so an event object
+	// that the hooks share between the peers' queues shows in B's queue under a foreign id
+	if in.Has("shadow") {
+		a.VerifNodeJoin("nodeC")
+		for k := in.Field1("shadow").Int(); k > 0; k-- {
+			a.VerifEmit("nodeC", &federation.Event{Event: &federation.Event_Message{Message: federation.VerifMessageToEvent(&gmqtt.Message{Topic: "shadow"})}})
+		}
+	}
 	nop := func(context.Context, server.Client, *gmqtt.Subscription) {}
 	nopU := func(context.Context, server.Client, string) {}
 	nopT := func(context.Context, string, server.SessionTerminatedReason) {}
@@ -645,6 +653,10 @@ func fedqGen(r *Rng, i int) *Sx {
 		add(L(A("joinpeer")))
 		add(L(A("hello"), A("ok")))
 		add(L(A("drain")))
+	}
+	if r.Chance(1, 2) {
+		// node A has a second peer whose queue is at another position (see fedqRun)
+		return L(K("ret", rets...), K("steps", steps...), K("shadow", I(Pick(r, []int{1, 2, 5}))))
 	}
 	return L(K("ret", rets...), K("steps", steps...))
 }
